@@ -491,7 +491,7 @@ func runC12(c C12Case) (res c12result) {
 			// which may still be in the queue (also a forced one that waits behind an
 			// unacknowledged request): outside the domain (two requests, one identifier)
 			for j := 0; j < i; j++ {
-				if c.Reqs[i].ExplicitID == 0 && ids[j] == ids[i] && ids[i] != 0 && requestType(c.Reqs[j].Kind) == requestType(c.Reqs[i].Kind) {
+				if (c.Reqs[i].ExplicitID == 0 || c.Reqs[j].ExplicitID == 0) && ids[j] == ids[i] && ids[i] != 0 && requestType(c.Reqs[j].Kind) == requestType(c.Reqs[i].Kind) {
 					return c12result{Incon: fmt.Sprintf("an automatic packet identifier (%d) coincides with one used earlier in the case", ids[i])}
 				}
 			}
@@ -525,7 +525,7 @@ func runC12(c C12Case) (res c12result) {
 			return c12result{Fail: f}
 		}
 		for j := 0; j < i; j++ {
-			if c.Reqs[i].ExplicitID == 0 && ids[j] == ids[i] && ids[i] != 0 && requestType(c.Reqs[j].Kind) == requestType(c.Reqs[i].Kind) {
+			if (c.Reqs[i].ExplicitID == 0 || c.Reqs[j].ExplicitID == 0) && ids[j] == ids[i] && ids[i] != 0 && requestType(c.Reqs[j].Kind) == requestType(c.Reqs[i].Kind) {
 				close(release)
 				return c12result{Incon: fmt.Sprintf("an automatic packet identifier (%d) coincides with one used earlier in the case", ids[i])}
 			}
